@@ -33,7 +33,7 @@ RULE = (
 ASSUMPTIONS = ["not asserted: skeleton patch_index of groups; patch indices in stub-derived chains",
                "U is restricted to operations whose outcome depends only on existence/kind (the property's domain)"]
 REQUIRED_CLASSES = {"all": ["real_ge3_containers", "exts_set", "exts_cleared_with_empty_dict", "update_deletes_old_node",
-                            "stub_patch_applied", "root_attr_only_patch"]}
+                            "stub_patch_applied", "root_attr_only_patch", "refused_commit_then_commit"]}
 BUDGET_S = {"quick": 900, "thorough": 3 * 3600}
 NSHARD = 16
 
@@ -106,6 +106,33 @@ def run_case(case, rec=None):
         t.commits += 1
         sess._snap_idx()
         check_commit(sess, t.rec.ih5_files[-1], state["exts"])
+        # refused commits (nothing to commit / unknown keyword) must leave manifest and extensions alone
+        dig0 = recutil.dir_digest(t.dir)
+        for bad in (lambda: t.rec.commit_patch(), lambda: t.rec.commit_patch(manifest_exts={"never": "committed"})):
+            try:
+                bad()
+            except Exception:  # noqa: BLE001
+                pass
+            else:
+                raise Violation("C10:commit-without-patch-accepted", "commit_patch() with nothing to commit succeeded", "refused")
+        if recutil.dir_digest(t.dir) != dig0:
+            ch = sorted(n for n in dig0 if recutil.dir_digest(t.dir).get(n) != dig0[n])
+            raise Violation("C10:refused-commit-changed-files", ch, "manifest on disk still matches its container")
+        check_commit(sess, t.rec.ih5_files[-1], state["exts"])
+        if case.get("bad_kw"):
+            # a commit refused because of an unknown keyword must not smuggle its extensions into the next commit
+            t.rec.create_patch()
+            try:
+                t.rec.commit_patch(manifest_exts={"never": "committed"}, typo=1)
+            except Exception:  # noqa: BLE001
+                pass
+            else:
+                raise Violation("C10:unknown-keyword-accepted", "commit_patch(typo=1)", "refused")
+            t.rec.commit_patch()
+            t.commits += 1
+            sess._snap_idx()
+            check_commit(sess, t.rec.ih5_files[-1], state["exts"])
+            classes.add("refused_commit_then_commit")
         sess.verify("real record after final commit")
         real_files = [str(p) for p in t.rec.ih5_files]
         n = len(real_files)
@@ -269,8 +296,8 @@ def cases(max_ops):
                        st.tuples(st.just("del"), H.ref, H.ref).map(list),
                        st.tuples(st.just("replace"), H.ref, st.sampled_from(["g", "d"]), H.small_value).map(list))
     upd = st.lists(upd_op, min_size=1, max_size=8)
-    return st.builds(lambda h, u, fe: dict(history=h, update=u, final_exts=fe), hist, upd,
-                     st.sampled_from([None, None, {"f": 1}, {}]))
+    return st.builds(lambda h, u, fe, bk: dict(history=h, update=u, final_exts=fe, bad_kw=bk), hist, upd,
+                     st.sampled_from([None, None, {"f": 1}, {}]), st.booleans())
 
 
 def run_shard(shard, tier, seed, rec):
